@@ -4,6 +4,7 @@ package cl
 
 import (
 	"strings"
+	"unicode/utf8"
 
 	"github.com/ohler55/slip"
 )
@@ -45,7 +46,9 @@ func (f *stringModify) Call(s *slip.Scope, args slip.List, depth int) (result sl
 	} else {
 		slip.TypePanic(s, depth, "string", args[0], "string")
 	}
-	end := len(str)
+	// The bounding indices count characters, not bytes.
+	size := utf8.RuneCountInString(str)
+	end := size
 	for pos := 1; pos < len(args); pos += 2 {
 		sym, ok := args[pos].(slip.Symbol)
 		if !ok {
@@ -72,10 +75,10 @@ func (f *stringModify) Call(s *slip.Scope, args slip.List, depth int) (result sl
 			slip.TypePanic(s, depth, "keyword", sym, ":start", ":end")
 		}
 	}
-	if end < start || len(str) < end || start < 0 {
-		slip.ErrorPanic(s, depth, "start and end of %d, %d are not valid for a string of length %d", start, end, len(str))
+	if end < start || size < end || start < 0 {
+		slip.ErrorPanic(s, depth, "start and end of %d, %d are not valid for a string of length %d", start, end, size)
 	}
-	if 0 < start || end < len(str) {
+	if 0 < start || end < size {
 		ra := []rune(str)
 		buf := make([]rune, 0, len(ra))
 		buf = append(buf, ra[:start]...)
